@@ -16,7 +16,7 @@ import numpy as np
 
 from .. import lean, gen
 from ..blocks import Blk, group_layout, compiled_blk
-from ..impl import Pen, Dfit, compiled, compiled_pen, compiled_df, gen_matrix, to_csc, call
+from ..impl import Pen, Dfit, compiled, compiled_pen, compiled_df, gen_matrix, to_csc, call, csc_tokens
 from ..proto import fb, vec, ivec, mat, b, decode, same, canon
 
 
@@ -839,3 +839,146 @@ def run_fista(ctx, rep, n_cases=None):
                 rep.violate("FISTA: the last history entry is not the objective of the returned coefficients",
                             dict(site="FISTA.solve", kind="history-last"), input=inp,
                             impl_output=dict(history=[float(t) for t in objs], w=[float(t) for t in w]), oracle=dict(objective=f_true))
+
+
+# ------------------------------------------------------------------ L-BFGS wrapper (black box: scipy is not modelled)
+def run_lbfgs(ctx, rep, n_cases=None):
+    """`LBFGS.solve` returns (w, history, stop): the model evaluates the objective and the sup-norm of its own `jac` at the
+    returned w; they must equal the last history entry and the returned stop value (dense and CSC), and the jac must be
+    the finite-difference gradient of the documented objective."""
+    from skglm.solvers import LBFGS
+    from skglm.penalties import L2
+    rng = ctx.rng
+    n_cases = n_cases or ctx.n(30, 300)
+    lines, metas = [], []
+    for _ in range(n_cases):
+        n, p = rng.randrange(3, 9), rng.randrange(1, 6)
+        X = np.asfortranarray(gen_matrix(rng, n, p, gen.pick(rng, ["gauss", "gauss", "sparse", "degenerate"]))) * 0.7
+        dfk = gen.pick(rng, ["logistic", "logistic", "quadratic", "poisson"])
+        df = Dfit(dfk)
+        y = (np.array([rng.choice([-1.0, 1.0]) for _ in range(n)]) if dfk == "logistic" else
+             np.array([float(rng.randrange(0, 5)) for _ in range(n)]) if dfk == "poisson" else
+             np.array([rng.gauss(0, 1) for _ in range(n)]))
+        alpha = gen.pick(rng, [0.01, 0.1, 1.0])
+        tol = gen.pick(rng, [1e-2, 1e-5, 1e-8])
+        k = gen.pick(rng, [1, 3, 50])
+        Xs = to_csc(X, rng, explicit_zeros=rng.random() < 0.3)
+        for sparse in ((False, True) if dfk == "logistic" else (False,)):
+            dobj = compiled_df(df)
+            pobj = compiled(L2(alpha))
+            if sparse:
+                dobj.initialize_sparse(Xs.data, Xs.indptr, Xs.indices, y)
+            else:
+                dobj.initialize(X, y)
+            r = call(lambda: LBFGS(max_iter=k, tol=tol).solve(Xs if sparse else X, y, dobj, pobj))
+            if isinstance(r, str):
+                rep.violate(f"LBFGS.solve raises {r}", dict(site="LBFGS.solve", kind="raises"),
+                            input=dict(X=X.tolist(), y=y.tolist(), datafit=dfk, alpha=alpha, sparse=sparse), impl_output=r)
+                continue
+            w, objs, stop = r
+            w = np.asarray(w, float)
+            lines.append(f"lbfgs_at {df.tokens()} {n} {p} {mat(X)} {csc_tokens(Xs)} {_v(np.ones(n))} {_v(y)} {fb(alpha)} {_v(w)}")
+            metas.append((sparse, w, objs, stop, X, y, df, alpha, dict(X=X.tolist(), y=y.tolist(), datafit=dfk, alpha=alpha,
+                                                                       sparse=sparse, tol=tol, max_iter=k)))
+    outs = lean.drive(lines)
+    for line, out, (sparse, w, objs, stop, X, y, df, alpha, inp) in zip(lines, outs, metas):
+        m = decode(out)
+        p = X.shape[1]
+        obj_d, stop_d, obj_s, stop_s = m[:4]
+        jac_d, jac_s = m[4:4 + p], m[4 + p:4 + 2 * p]
+        rep.count(f"lbfgs:{inp['datafit']}:{'csc' if sparse else 'dense'}:{len(objs)}it", False, ("lbfgs", sparse, hash(line)))
+        mo, ms = (obj_s, stop_s) if sparse else (obj_d, stop_d)
+        if not same([float(stop)], [ms], 1e-7, 1e-10):
+            rep.disagree("K:lbfgs-stop", line[:200], [float(stop)], [ms], dict(site="LBFGS._solve"), input=dict(inp, w=w.tolist()))
+        if len(objs) and not same([float(objs[-1])], [mo], 1e-8, 1e-10):
+            rep.disagree("K:lbfgs-history", line[:200], [float(objs[-1])], [mo], dict(site="LBFGS._solve"),
+                         input=dict(inp, w=w.tolist()))
+        if not same(jac_d, jac_s, 1e-8, 1e-10):
+            rep.disagree("K:lbfgs-jac-sparse", line[:200], jac_d, jac_s, dict(site="LBFGS._solve"), input=dict(inp, w=w.tolist()))
+
+        def F(v):
+            return df.ref_value(np.ones(len(y)), y, X @ v, v) + 0.5 * alpha * float(v @ v)
+        g = np.array([(F(w + 1e-6 * e) - F(w - 1e-6 * e)) / 2e-6 for e in np.eye(p)])
+        true_stop = float(np.max(np.abs(g))) if p else 0.0
+        if abs(true_stop - float(stop)) > 1e-5 * (1 + true_stop):
+            rep.violate("LBFGS: the returned stopping value is not the sup-norm of the gradient of the documented objective "
+                        "at the returned coefficients", dict(site="LBFGS.solve", kind="stop-value"), input=dict(inp, w=w.tolist()),
+                        impl_output=dict(stop_crit=float(stop)), oracle=dict(finite_difference_gradient=g.tolist()))
+        if float(stop) <= inp["tol"] and true_stop > inp["tol"] * (1 + 1e-4) + 1e-6:
+            rep.violate("LBFGS: stop_crit <= tol was returned but the gradient of the documented objective is larger",
+                        dict(site="LBFGS.solve", kind="certificate"), input=dict(inp, w=w.tolist()),
+                        impl_output=dict(stop_crit=float(stop)), oracle=dict(violation=true_stop))
+
+
+# ------------------------------------------------------------------ C15 at kernel level: epochs commute with feature relabelling
+def run_kernel_symmetries(ctx, rep, n_cases=None):
+    """one coordinate epoch (AndersonCD `_cd_epoch`) and one inner solve of prox-Newton (`_descent_direction`, dense and
+    CSC) on a problem and on the same problem with its features relabelled (columns, coefficients, per-feature weights
+    and the working set mapped together): the results must be the relabelled results (Lean: `cdEpoch_perm`)."""
+    from skglm.solvers.anderson_cd import _cd_epoch
+    from skglm.solvers.prox_newton import _descent_direction, _descent_direction_s, _construct_grad
+    rng = ctx.rng
+    n_cases = n_cases or ctx.n(40, 400)
+    for _ in range(n_cases):
+        n, p = rng.randrange(4, 9), rng.randrange(2, 7)
+        X = np.asfortranarray(gen_matrix(rng, n, p, "gauss")) * 0.6
+        dfk = gen.pick(rng, ["logistic", "quadratic"])
+        df = Dfit(dfk)
+        y = np.array([rng.choice([-1.0, 1.0]) for _ in range(n)]) if dfk == "logistic" else np.array([rng.gauss(0, 1) for _ in range(n)])
+        pk = gen.pick(rng, ["wl1", "wl1", "wmcp", "l1"])
+        alpha = gen.pick(rng, [0.02, 0.1])
+        pen = Pen("wmcp", alpha, gamma=30.0) if pk == "wmcp" else Pen(pk, alpha)
+        wts = np.array([gen.pick(rng, [0.25, 0.5, 1.0, 2.0, 4.0]) for _ in range(p)])
+        perm = np.array(rng.sample(range(p), p))
+        inv = np.argsort(perm)
+        X2 = np.asfortranarray(X[:, perm])
+        wts2 = wts[perm]
+        pobj = compiled_pen(pen, list(wts) if pen.kind in Pen.WEIGHTED else None)
+        pobj2 = compiled_pen(pen, list(wts2) if pen.kind in Pen.WEIGHTED else None)
+        dobj = compiled(df.build())
+        dobj.initialize(X, y)
+        dobj2 = compiled(df.build())            # datafits cache X^T y at initialisation: one object per design
+        dobj2.initialize(X2, y)
+        fi = rng.random() < 0.5
+        w0 = np.array([rng.gauss(0, 0.5) if rng.random() < 0.5 else 0.0 for _ in range(p)])
+        b0 = rng.gauss(0, 0.3) if fi else 0.0
+        Xw0 = X @ w0 + b0
+        ws = np.array(rng.sample(range(p), rng.randrange(1, p + 1)), dtype=np.int64)
+        ws2 = np.array([inv[j] for j in ws], dtype=np.int64)         # the same features, in the same order
+        inp = dict(datafit=dfk, X=X.tolist(), y=y.tolist(), penalty=pen.describe(), weights=wts.tolist(), w=w0.tolist(),
+                   intercept=b0, ws=ws.tolist(), perm=perm.tolist(), fit_intercept=fi)
+        # --- AndersonCD epoch
+        lips = np.asarray(dobj.get_lipschitz(X, y), float)
+        wa, Xwa = w0.copy(), Xw0.copy()
+        r1 = call(_cd_epoch, X, y, wa, Xwa, lips, dobj, pobj, ws)
+        wb, Xwb = w0[perm].copy(), Xw0.copy()
+        r2 = call(_cd_epoch, X2, y, wb, Xwb, lips[perm], dobj2, pobj2, ws2)
+        rep.count(f"sym:cd_epoch:{dfk}:{pen.kind}", False, ("symcd", hash(X.tobytes()), tuple(perm)))
+        if isinstance(r1, str) or isinstance(r2, str) or not np.allclose(wa[perm], wb, rtol=1e-9, atol=1e-11) \
+                or not np.allclose(Xwa, Xwb, rtol=1e-9, atol=1e-11):
+            rep.violate("a coordinate epoch on the relabelled problem is not the relabelled epoch",
+                        dict(site="_cd_epoch", kind="symmetry", transform="permute-features"), input=inp,
+                        impl_output=dict(original=wa.tolist(), relabelled_back=(wb[inv].tolist() if not isinstance(r2, str) else r2)))
+        # --- prox-Newton inner solver, dense and CSC
+        wf = np.append(w0, b0)
+        wf2 = np.append(w0[perm], b0)
+        for sparse in (False, True):
+            g1 = call(_construct_grad, X, y, wf[:p], Xw0, dobj, ws)
+            g2 = call(_construct_grad, X2, y, wf2[:p], Xw0, dobj2, ws2)
+            if sparse:
+                A, B = to_csc(X), to_csc(X2)
+                d1 = call(_descent_direction_s, A.data, A.indptr, A.indices, y, wf.copy(), Xw0.copy(), fi, g1, dobj, pobj, ws, 0.0, "subdiff")
+                d2 = call(_descent_direction_s, B.data, B.indptr, B.indices, y, wf2.copy(), Xw0.copy(), fi, g2, dobj2, pobj2, ws2, 0.0, "subdiff")
+            else:
+                d1 = call(_descent_direction, X, y, wf.copy(), Xw0.copy(), fi, g1, dobj, pobj, ws, 0.0, "subdiff")
+                d2 = call(_descent_direction, X2, y, wf2.copy(), Xw0.copy(), fi, g2, dobj2, pobj2, ws2, 0.0, "subdiff")
+            site = "_descent_direction" + ("_s" if sparse else "")
+            rep.count(f"sym:{site}:{dfk}:{pen.kind}", False, ("sympn", sparse, hash(X.tobytes()), tuple(perm)))
+            bad = isinstance(d1, str) or isinstance(d2, str)
+            if not bad:
+                bad = not (np.allclose(d1[0], d2[0], rtol=1e-8, atol=1e-10) and np.allclose(d1[1], d2[1], rtol=1e-8, atol=1e-10))
+            if bad:
+                rep.violate("the inner prox-Newton solve on the relabelled problem is not the relabelled solve",
+                            dict(site=site, kind="symmetry", transform="permute-features"), input=inp,
+                            impl_output=dict(original=(d1 if isinstance(d1, str) else np.asarray(d1[0]).tolist()),
+                                             relabelled=(d2 if isinstance(d2, str) else np.asarray(d2[0]).tolist())))
